@@ -12,6 +12,20 @@ shape), ends every exchange, runs housekeeping past every deadline and prints th
 namespace Driver.C13
 open CoapVerif CoapVerif.Model.Tables
 
+/-- second use of a caller-owned request message (`mobs:<slot>:<toklen>:…`, `mdo:…`, `mwrite:…`): which message object the
+    application writes its request into, and how long the token is, is below the table model — the stored keys are VALUES
+    fixed at registration (`Model/TokenValue.lean`; the harness probes it on the real tables) — so the exchange is the
+    plain one. -/
+def normOp (f : List String) : List String :=
+  match f with
+  | "mobs" :: _ :: _ :: rest => "obs" :: rest
+  | "mdo" :: _ :: _ :: rest => "do" :: rest
+  | "mwrite" :: _ :: _ :: rest => "write" :: rest
+  | _ => f
+
+def normLine (ws : List String) : List String :=
+  ws.take 5 ++ (ws.drop 5).map (fun op => ":".intercalate (normOp (op.splitOn ":")))
+
 def siteOf (fn table : String) : Nat := (sites.findIdx? (fun s => s.func == fn && s.table == table)).getD 9999
 
 def strKey (s : String) : Nat := s.foldl (fun a c => a * 131 + c.toNat) 7
@@ -112,7 +126,7 @@ def finalSizes (s : TState) : String :=
 def model (line : String) : String :=
   match words line with
   | "scn" :: tr :: bw :: _ :: _ :: ops =>
-    let evs := events (tr.startsWith "udp") (bw == "1") (ops.map (·.splitOn ":"))
+    let evs := events (tr.startsWith "udp") (bw == "1") (ops.map (fun op => normOp (op.splitOn ":")))
     finalSizes (trun evs)
   | ["disc", _] => "final:0,0"
   | _ => "bad-op"
@@ -132,20 +146,23 @@ def judgeLine (line : String) : String :=
   | [inp, obs] =>
     let obs := obs.trimAscii.toString
     if obs.contains "panic" then "violates no-crash" else
-    match words inp with
+    -- aliasing probe of the harness (`!keychanged:observations:<id>` behind a segment): a live observation is no longer found
+    -- under (or no longer reports) its registration-time token.  Reported only when no clause of the property's wording fails.
+    let probe := (obs.splitOn "keychanged:observations").length > 1
+    match normLine (words inp) with
     | "scn" :: _ =>
-      let segs := obs.splitOn ";"
+      let segs := (obs.splitOn ";").map (fun g => (g.splitOn "!").headD "")
       match segs.reverse with
       | last :: restRev =>
         if !last.startsWith "final:" then "violates unparsable-observation" else
-        let opNames := (words inp).drop 5 |>.map (fun op => (op.splitOn ":").headD "")
+        let opNames := (normLine (words inp)).drop 5 |>.map (fun op => (op.splitOn ":").headD "")
         let ours := opNames.map (fun n => ["resp", "nb0", "nblk", "blk2", "cont", "bad", "ack", "rst", "pong"].contains n)
         match parsePoint (last.drop 6).toString, restRev.reverse.mapM parsePoint with
         | some fin, some pts =>
           let pts3 := (pts.zip (ours ++ List.replicate pts.length false)).map (fun (p, o) => (p.1, p.2, o))
           -- marks: virtual time from the sleep ops; peer messages are all ops but the local ones
           let local_ := ["do", "obs", "obscancel", "ping", "aping", "apcancel", "write", "cancel", "sleep", "tick", "close", "settle", "end"]
-          let (marks, _, _) := ((words inp).drop 5).foldl (fun (acc : List Spec.Quiescence.Mark × Nat × Nat) op =>
+          let (marks, _, _) := ((normLine (words inp)).drop 5).foldl (fun (acc : List Spec.Quiescence.Mark × Nat × Nat) op =>
             let (ms, now, lastPeer) := acc
             let f := op.splitOn ":"
             match f with
@@ -154,7 +171,7 @@ def judgeLine (line : String) : String :=
             | ["nblk", _, "0"] => (ms ++ [.lastBlock], now, now)
             | _ => (ms ++ [.none], now, if local_.contains (f.headD "") then lastPeer else now)) ([], 0, 0)
           match Spec.Quiescence.judge pts3 fin marks with
-          | none => "ok"
+          | none => if probe then "violates stored-key-changed:observations" else "ok"
           | some c => s!"violates {c}"
         | _, _ => "violates unparsable-observation"
       | [] => "violates unparsable-observation"
